@@ -73,4 +73,51 @@ def check(facts):
             r.ok(key, "%d whole-slice uses" % uses)
             r.sample({"function": fn, "uses": uses})
     r.floor("byte_searchers", n, 8)
+    # CHUNKSTRIDE: a scan that views the bytes as words (`align_to::<T>()`) keeps a running byte offset; inside the loop over a slice of
+    # T the offset advances by size_of::<T>() per element (1 in the byte loops over prefix / suffix)
+    import re as _re
+    from .lbseq import natural_loops
+    SIZES = {"u8": 1, "i8": 1, "u16": 2, "i16": 2, "u32": 4, "i32": 4, "u64": 8, "i64": 8, "usize": 8, "u128": 16}
+    nstr = 0
+    for fn in sorted(facts.body_names()):
+        if "::tests::" in fn:
+            continue
+        b = facts.body(fn)
+        if not any((t.get("callee") or "").endswith("align_to") for _, t in b.iter_calls()):
+            continue
+        loops = natural_loops(b)
+        elem = {}
+        for h, ns in loops.items():
+            for bb, t in b.iter_calls():
+                if bb in ns and (t.get("callee") or "").endswith("Iterator::next"):
+                    m = _re.search(r"slice::Iter<'[^,]*, (\w+)>", str((t.get("func") or {}).get("ty", "")))
+                    # the loop's own iterator is the one whose `next` is not inside a smaller loop
+                    inner = [h2 for h2, ns2 in loops.items() if h2 != h and ns2 < ns and bb in ns2]
+                    if m and not inner:
+                        elem[h] = m.group(1)
+        for bi, i, st in b.iter_stmts():
+            if st["k"] != "assign" or st["pl"]["p"] or st["rv"]["k"] not in ("bin", "checked_bin") or not str(st["rv"].get("op", "")).startswith("Add"):
+                continue
+            a_, c_ = st["rv"]["a"], st["rv"]["b"]
+            if a_.get("k") not in ("copy", "move") or a_["pl"]["l"] != st["pl"]["l"] or b.const_of_operand(c_) is None:
+                continue
+            inl = [(len(ns), h) for h, ns in loops.items() if bi in ns]
+            if not inl:
+                continue
+            h = min(inl)[1]
+            if h not in elem or elem[h] not in SIZES:
+                continue
+            nstr += 1
+            k = SIZES[elem[h]]
+            c = b.const_of_operand(c_)
+            key = "%s offset stride in the loop over [%s] #%d" % (fn, elem[h], nstr)
+            if c == k:
+                r.ok(key, "+= %d" % c)
+            else:
+                r.fail(key, "the running byte offset `%s` advances by %d per %s element (line %s) although an element covers %d bytes: after a "
+                            "chunk without a hit the reported index drifts, so the prefilter hands the matcher a position that is too early — "
+                            "possibly inside a UTF-8 sequence" % (b.local_name(st["pl"]["l"]) or "_%d" % st["pl"]["l"], c, elem[h], st["line"], k),
+                       facts.loc(fn, st["line"]))
+    if facts.config in ("default", "ip", "utf16", "pattern", "alloc"):
+        r.floor("chunked_scan_offset_steps", nstr, 3)
     return r
